@@ -9,6 +9,7 @@ CONSTANTS
   Watch = "none"
   AncVals = {"nil"}
   Fulls = {FALSE}
+  InitDisks = {"A"}
   Variant = "code"
 SPECIFICATION FairSpec
 PROPERTY C21_OperationsFinish
